@@ -1,2 +1,7 @@
 import PycommProps.C10
-#print axioms Pycomm.C10.placeholder
+#print axioms Pycomm.C10.failures_are_library
+#print axioms Pycomm.C10.after_close_driver
+#print axioms Pycomm.C10.after_close_target
+#print axioms Pycomm.C10.no_unit_data_before_open
+#print axioms Pycomm.C10.fo_order
+#print axioms Pycomm.C10.reopen_works
